@@ -90,6 +90,7 @@ def unit_seq_corr(args):
     def make_gen(runner):
         g = gen.ProgGen(rng, runner, fam, p_read=p_read, p_miss=p_miss, p_ext=p_ext, p_invalid=p_invalid,
                         invalid_kinds=_invalid_kinds(fam))
+        g.allow_extdel = True
         state["g"] = g
         return g
 
@@ -145,6 +146,8 @@ def unit_buf_corr(args):
             world = World(ns, fam, tmp)
             runner = Runner(ns, world)
             g = bgen.BufGen(rng, runner, fam, **params)
+            g.allow_extdel = True
+            g.ctor_data = True
             is_dict, ops = bgen.buf_setup(rng, g, objs_per_res=2 if params.get("joint") else None)
             runner.bcls = fam.dict_cls if is_dict else fam.list_cls
             lines = [runner.exec(op) for op in ops]
@@ -203,6 +206,7 @@ def unit_seq_oracle(args):
             sh = oracles.Shadow(ns, world, fam)
             g = gen.ProgGen(rng, sh, fam, p_read=p_read, p_miss=p_miss, p_ext=p_ext, p_invalid=p_invalid,
                             invalid_kinds=_invalid_kinds(fam))
+            g.allow_extdel = True
             is_dict, ops = seq_setup(rng, g.vg, profile)
             g.resources = [(0, is_dict)]
             for op in ops:
